@@ -9,12 +9,6 @@ namespace ApiFu.C20
 
 /-! ### The envelope, on the model's syntax -/
 
-/-- The key of the generator's `fields` map a selection writes to. -/
-def memberKey (td : TypeDef) : Sel → Name
-  | .field alias name _ => alias.getD name
-  | .inline cond _ => cond.getD td.name
-  | .spread f => f
-
 def isFieldSel : Sel → Bool
   | .field _ _ _ => true
   | _ => false
@@ -33,11 +27,20 @@ def TypeDef.isUnion : TypeDef → Bool
   | .union _ _ => true
   | _ => false
 
-/-- Within one selection set: the Go field names of all members are distinct (no F-20d/F-20e
-    collision), and the response keys are distinct ignoring letter case. -/
+/-- The identity of a fragment member: kind and fragment / type-condition name (as one name). -/
+def fragIdOf (td : TypeDef) : Sel → Option Name
+  | .field _ _ _ => none
+  | .inline cond _ => some (0 :: cond.getD td.name)
+  | .spread f => some (1 :: f)
+
+/-- Within one selection set: the Go names of the *fields* are distinct, no fragment is spread twice
+    and no type condition is used by two inline fragments (F-20e), and the response keys are distinct
+    ignoring letter case. That the fragment *holders* get names distinct from the fields' and from
+    each other needs no assumption since fix 06: `keysNodup_fst` (LemHolders/LemLevel3). -/
 def keysNodup (td : TypeDef) (sels : List Sel) : Bool :=
-  nodupB (sels.map fun s => fieldName (memberKey td s)) &&
-  nodupB ((sels.filter isFieldSel).map fun s => lowerAll (memberKey td s))
+  nodupB (takenOf sels) &&
+  nodupB (sels.filterMap (fragIdOf td)) &&
+  nodupB ((sels.filter isFieldSel).map fun s => lowerAll (memberKey [] td s))
 
 /-- Built-in scalars and enums: the leaf types of responses inside the envelope. -/
 def isLeafKind : TypeDef → Bool
@@ -187,9 +190,9 @@ theorem scalar_holds {S : Schema} (env : List Decl) {n nm : Name} (hl : S.lookup
           · have h5' : (nm == n_ID) = false := by simpa using h5
             simp [h5'] at h
 
-theorem enum_holds {S : Schema} {env : List Decl} {n nm : Name} {vs : List Name} {cs : List (Name × Name)}
-    (hl : S.lookup n = some (.enum nm vs)) (hd : lookupDecl env nm = some (.enum nm cs)) :
-    ∀ j L, scalarLeaves S n j = some L → Holds env (.named nm) j L := by
+theorem enum_holds {S : Schema} {env : List Decl} {n nm gn : Name} {vs : List Name} {cs : List (Name × Name)}
+    (hl : S.lookup n = some (.enum nm vs)) (hd : lookupDecl env gn = some (.enum gn cs)) :
+    ∀ j L, scalarLeaves S n j = some L → Holds env (.named gn) j L := by
   intro j L h
   unfold scalarLeaves at h
   simp only [hl] at h
